@@ -149,6 +149,25 @@ def run(ck: Check):
                 ratio = float((g2.abs().sum() / g1.abs().sum()))
                 ck.disagree("gradient flowing to the layer input is not multiplied by exactly the gradient factor", dict(case, observed_ratio=ratio),
                             signature={"layer": name.split("-")[0], "what": "gf-scale", "padded": "pad0" not in name and "conv" in name})
+            # the factor scales only what flows back THROUGH the layer: another consumer of the same input tensor is not scaled,
+            # and applying the module twice to one tensor scales each path once
+            xs = torch.rand(*shp, dtype=torch.float64, requires_grad=True)
+            h = xs * 1.0
+            cvec = torch.rand_like(h)
+            l.grad_factor = 1.0
+            ga, = torch.autograd.grad(l(h), [h], grad_outputs=up, retain_graph=False)
+            h = xs * 1.0
+            l.grad_factor = f
+            tot, = torch.autograd.grad((l(h) * up).sum() + (h * cvec).sum(), [h])
+            if float((tot - (f * ga + cvec)).abs().max()) > 1e-10 * max(1.0, float(ga.abs().max())):
+                ck.disagree("the gradient factor also scales gradient that reaches the input tensor through another consumer",
+                            dict(case, situation="second consumer"), signature={"layer": name.split("-")[0], "what": "gf-other-consumer"})
+            h = xs * 1.0
+            tw, = torch.autograd.grad(((l(h) + l(h)) * up).sum(), [h])
+            if float((tw - 2 * f * ga).abs().max()) > 1e-10 * max(1.0, float(ga.abs().max())):
+                ck.disagree("applying the module twice to one tensor does not scale each path by the factor once",
+                            dict(case, situation="applied twice"), signature={"layer": name.split("-")[0], "what": "gf-twice"})
+            ck.count("gradfactor_consumer_checks", 2)
     return ck.finish()
 
 
